@@ -1,9 +1,10 @@
-(* C11 — Snapshots and compaction never lose history (compaction arithmetic).
-   Statements only; proofs in Proofs/CompactionProofs.v. *)
+(* C11 — Snapshots and compaction never lose history.
+   Statements only; proofs in Proofs/CompactionProofs.v, SnapshotProofs.v (one server) and
+   Proofs/ClusterCommitSnap*.v (all runs of the cluster with commitment and takeSnapshot). *)
 From Coq Require Import List NArith.
 From stdpp Require Import gmap.
-From RaftModel Require Import Base Compaction Node.
-From RaftProofs Require Import CompactionProofs SnapshotProofs.
+From RaftModel Require Import Base Config Compaction Node NodeCodec Cluster ClusterLog ClusterCommit.
+From RaftProofs Require Import CompactionProofs SnapshotProofs ClusterCommitSpec ClusterCommitSnapSpec ClusterCommitSnapMain.
 Open Scope N_scope.
 
 (* whatever first/snapshot/last/TrailingLogs: the range deleted starts at the first index, ends at
@@ -55,3 +56,16 @@ Example C11_nontrivial :
   compact 3 10 20 5 = Some (3, 10) /\ compact 3 18 20 5 = Some (3, 15) /\
   compact 3 10 4 5 = None /\ compact 12 10 20 5 = None.
 Proof. vm_compute. repeat split. Qed.
+
+
+(* ALL RUNS of the cluster with commitment and takeSnapshot (Model/ClusterCommit.v, crun true): every
+   snapshot stored anywhere (running or stopped server) carries the term of the COMMITTED entry at its
+   index - wherever a running server still holds an entry at that index at or below its commit index, the
+   terms agree - and two snapshots of one index have one term: "a snapshot's index and term are exactly
+   those of the committed history at that index".  (Configuration and FSM content of the snapshot: the
+   one-server theorem C11_snapshot_records_committed_state.) *)
+Theorem C11_snapshots_are_of_committed_history : forall cfg g0 ls g,
+  cinit_snap_ok cfg g0 -> Forall label_ok ls -> crun true [cfg] g0 ls = Some g ->
+  snapshots_committed g.
+Proof. intros cfg g0 ls g H0 Hl Hr. destruct (state_machine_safety_snapshots cfg g0 ls g H0 Hl Hr) as (_ & _ & _ & A). exact A. Qed.
+Print Assumptions C11_snapshots_are_of_committed_history.
